@@ -263,7 +263,16 @@ class SymNum:
     def __round__(self, n=None):
         if self.is_int():
             return self
-        raise TypeError("round() of a symbolic real")
+        # nearest multiple of 10**-n (ties upwards; Python rounds the binary float half-to-even: the two only differ on
+        # exact ties, and every counterexample is replayed on real floats)
+        scale = 10 ** (n or 0)
+        SymNum._round_counter = getattr(SymNum, "_round_counter", 0) + 1
+        q = z3.Int("round_q_%d" % SymNum._round_counter)          # q <= x*scale + 1/2 < q + 1  (linear, no to_int)
+        s = self.t * scale + z3.RealVal(1) / 2
+        self.eng.assume(z3.And(z3.ToReal(q) <= s, s < z3.ToReal(q) + 1))
+        if not n:
+            return make(self.eng, q)
+        return make(self.eng, z3.ToReal(q) / scale)
 
     def __float__(self):
         raise TypeError("float() of a symbolic number reached a C boundary (missing shim)")
